@@ -219,7 +219,7 @@ func verifyAll(L *Loaded, sel func(c *Contract) bool, workDir string, timeout ti
 	}
 	results := make([]*OblResult, len(jobs))
 	var wg sync.WaitGroup
-	sem := make(chan struct{}, 6)
+	sem := make(chan struct{}, 7)
 	for i, j := range jobs {
 		wg.Add(1)
 		go func(i int, j job) {
